@@ -322,6 +322,12 @@ pub fn full_factor_text(carriers: &[&str]) -> String {
         s.push_str(&format!("{}, {}, {}, {}, {}, {}, {}\n", cr, src, dst, step, tok(&format!("{}_ren", stem), f), tok(&format!("{}_nren", stem), f), tok(&format!("{}_co2", stem), f)));
     };
     line("ELECTRICIDAD", "COGEN", "SUMINISTRO", "A");
+    // step B grid supply lines: accepted by the parser, not used by the method
+    for cr in carriers.iter().chain(["ELECTRICIDAD"].iter()) {
+        if *cr != "EAMBIENTE" && *cr != "TERMOSOLAR" {
+            line(cr, "RED", "SUMINISTRO", "B");
+        }
+    }
     for dst in ["A_RED", "A_NEPB"] {
         for step in ["A", "B"] {
             line("ELECTRICIDAD", "COGEN", dst, step);
